@@ -393,7 +393,7 @@ func c09docs(quick bool) []c09doc {
 	docs = append(docs, c09singles("single/other", corpus["rich2"], "compose.yaml", "other")...)
 	docs = append(docs, c09singles("single/b1", corpus["rich3"], "compose.yaml", "b1")...)
 	// value variants: every boolean leaf flipped, every numeric leaf set to zero (omitempty victims)
-	variantInputs := []string{"rich", "rich2", "rich3"}
+	variantInputs := []string{"rich", "rich2", "rich3", "wide"}
 	if !quick {
 		// thorough: the leaves of every loadable single-file corpus input
 		variantInputs = nil
